@@ -16,8 +16,9 @@ assert rc == 0, out
 res = {}
 try:
     demo_dir = meta['demo_dir']
-    demo_dst = os.path.join(wt, demo_dir, 'zz_seed_demo_test.go')
-    shutil.copy(os.path.join(src, 'demo_test.go'), demo_dst)
+    demo_file = meta.get('demo_file', 'demo_test.go')
+    demo_dst = os.path.join(wt, demo_dir, 'zz_seed_demo_test.go' if demo_file == 'demo_test.go' else demo_file)
+    shutil.copy(os.path.join(src, demo_file), demo_dst)
     run = meta['demo_run']
     rc, out = sh(run, cwd=wt)
     res['demo_without_change'] = 'pass' if rc == 0 else 'FAIL'
@@ -26,7 +27,7 @@ try:
     assert rc == 0, out
     rc, out = sh('go build ./lib/... && go test -vet=off -count=1 ./lib/...', cwd=wt)
     res['suite_with_change'] = 'pass' if rc == 0 else 'FAIL'
-    shutil.copy(os.path.join(src, 'demo_test.go'), demo_dst)
+    shutil.copy(os.path.join(src, demo_file), demo_dst)
     rc, out = sh(run, cwd=wt)
     res['demo_with_change'] = 'fail' if rc != 0 else 'PASSES(unexpected)'
     res['demo_output_tail'] = out[-600:]
@@ -37,8 +38,10 @@ print(json.dumps(res, indent=1))
 if ok:
     dst = os.path.join('/verif/seeded', sid)
     os.makedirs(dst, exist_ok=True)
-    shutil.copy(os.path.join(src, 'patch.diff'), dst)
-    shutil.copy(os.path.join(src, 'demo_test.go'), dst)
+    if os.path.abspath(src) != os.path.abspath(dst):
+        shutil.copy(os.path.join(src, 'patch.diff'), dst)
+    if os.path.abspath(src) != os.path.abspath(dst):
+        shutil.copy(os.path.join(src, demo_file), dst)
     meta['confirmed'] = res
     meta['base_commit'] = subprocess.run('git -C /repo rev-parse --short HEAD', shell=True, stdout=subprocess.PIPE, text=True).stdout.strip()
     json.dump(meta, open(os.path.join(dst, 'meta.json'), 'w'), indent=1)
